@@ -1,7 +1,10 @@
 package main
 
 import (
+	"context"
 	"fmt"
+	"os"
+	"path/filepath"
 	"sort"
 	"strings"
 
@@ -635,6 +638,10 @@ func (c *Ctx) c12DaysCase(bt *Batch, i int, k c12Case) {
 		isNil bool
 	}
 	var days []dayOut
+	viaFile := c.WorkDir != "" && i%3 == 0
+	if viaFile {
+		c.Tag("days-via-file")
+	}
 	impl := func() (answer string) {
 		defer func() {
 			if p := recover(); p != nil {
@@ -650,14 +657,36 @@ func (c *Ctx) c12DaysCase(bt *Batch, i int, k c12Case) {
 			}
 			return cm
 		}
-		jb := journal.New()
-		for _, d := range k.Decls {
-			if d.Empty {
-				jb.Add(&model.Transaction{Date: dayTime(d.Day), Description: "x"})
-				continue
+		var jb *journal.Builder
+		if viaFile {
+			// the whole loading pipeline: file -> parser -> price.Create -> journal.Builder
+			var tb strings.Builder
+			for n, d := range k.Decls {
+				if d.Empty {
+					fmt.Fprintf(&tb, "%s open Assets:Marker%d\n", dayTime(d.Day).Format("2006-01-02"), n)
+				} else {
+					fmt.Fprintf(&tb, "%s price %s %s %s\n", dayTime(d.Day).Format("2006-01-02"), d.Com, d.Price, d.Tgt)
+				}
 			}
-			p, _ := decimal.NewFromString(d.Price)
-			jb.Add(&model.Price{Date: dayTime(d.Day), Commodity: com(d.Com), Price: p, Target: com(d.Tgt)})
+			os.MkdirAll(c.WorkDir, 0o755)
+			path := filepath.Join(c.WorkDir, "c12days.knut")
+			if err := os.WriteFile(path, []byte(tb.String()), 0o644); err != nil {
+				panic(err)
+			}
+			var err error
+			if jb, err = journal.FromPath(context.Background(), reg, path); err != nil {
+				return "load-error " + err.Error()
+			}
+		} else {
+			jb = journal.New()
+			for _, d := range k.Decls {
+				if d.Empty {
+					jb.Add(&model.Transaction{Date: dayTime(d.Day), Description: "x"})
+					continue
+				}
+				p, _ := decimal.NewFromString(d.Price)
+				jb.Add(&model.Price{Date: dayTime(d.Day), Commodity: com(d.Com), Price: p, Target: com(d.Tgt)})
+			}
 		}
 		j := jb.Build()
 		if err := j.Process(journal.ComputePrices(com(k.V))); err != nil {
@@ -737,7 +766,7 @@ func (c *Ctx) c12DaysCase(bt *Batch, i int, k c12Case) {
 			c.Monitor("days", i, "priceOK(day)", in2, mon == "ok", "table "+c12ShowTable(d.table)+" => "+mon)
 		}, "c12mon", Hex(k.V), c12DeclsField(prefix, false), c12TableField(d.table))
 	}
-	c.Class(fmt.Sprintf("c12days/%s/days%s/nil%v/carried%v", k.Shape, bucket(len(firstDays)), nilDays > 0, carried > 0))
+	c.Class(fmt.Sprintf("c12days/%s/days%s/nil%v/carried%v/file%v", k.Shape, bucket(len(firstDays)), nilDays > 0, carried > 0, viaFile))
 	if i < 2 {
 		c.Sample(map[string]any{"stream": "days", "input": in, "impl": first})
 	}
